@@ -9,21 +9,25 @@ import time
 import vlib
 from vlib import Machinery, log
 
-# family -> (number of shards, quick budget (haystacks/pattern), quick max length, thorough budget, thorough max length)
+# family -> (number of shards the family is cut into, quick budget (haystacks/pattern), quick max length,
+#            thorough budget, thorough max length)
+# THE UNIVERSE of a family is its first UNIVERSE_SHARDS shards at the thorough budget: a quick run explores one of
+# them (VERIF_SEED picks which) at the quick budget (a subset of the thorough haystacks), a thorough run all of them.
+# So the thorough tier enumerates the whole fixed universe and the known-findings file can be complete.
 FAMILIES = {
-    "G2a": (64, 90, 3, 160, 4),
-    "G2m": (64, 90, 3, 160, 4),
-    "G2u": (64, 90, 3, 160, 4),
-    "G2x": (16, 90, 4, 160, 5),
-    "LIT": (8, 120, 4, 400, 5),
-    "REV": (8, 120, 4, 400, 5),
-    "ANC": (4, 120, 4, 400, 5),
-    "CC": (16, 120, 4, 400, 5),
-    "DIG": (1, 160, 4, 800, 5),
-    "CAP": (4, 120, 4, 400, 5),
-    "U8": (2, 120, 3, 400, 4),
+    "G2a": (64, 90, 3, 140, 4),
+    "G2m": (64, 90, 3, 140, 4),
+    "G2u": (64, 90, 3, 140, 4),
+    "G2x": (16, 90, 4, 140, 5),
+    "LIT": (8, 120, 4, 260, 5),
+    "REV": (8, 120, 4, 260, 5),
+    "ANC": (4, 120, 4, 260, 5),
+    "CC": (16, 120, 4, 260, 5),
+    "DIG": (1, 160, 4, 400, 5),
+    "CAP": (4, 120, 4, 260, 5),
+    "U8": (2, 120, 3, 260, 4),
 }
-THOROUGH_SHARDS = 4   # how many consecutive shards of each family a thorough run covers
+UNIVERSE_SHARDS = 4
 
 SEARCH_CFG = "SPECIFICATION Spec\nINVARIANT Emit\n"
 
@@ -35,12 +39,12 @@ def search_jobs(tier, families=None, with_at=False, budget_scale=1.0):
     for fam, (nsh, qb, ql, tb, tl) in FAMILIES.items():
         if families and fam not in families:
             continue
+        u = min(nsh, UNIVERSE_SHARDS)
         if tier == "quick":
-            shards = [s % nsh]
+            shards = [s % u]
             b, l = qb, ql
         else:
-            k = min(nsh, THOROUGH_SHARDS)
-            shards = sorted({(s * k + j) % nsh for j in range(k)})
+            shards = list(range(u))
             b, l = tb, tl
         for sh in shards:
             jobs.append((fam, {"Family": fam, "Shard": sh, "NShards": nsh, "Budget": max(8, int(b * budget_scale)),
@@ -269,7 +273,17 @@ def c08(prop, tier):
                                   "or from the template (expand)")
 
 
+def c14(prop, tier):
+    return run_search_family(prop, tier, prop, subcmd="engines", with_at=True, budget_scale=0.5 if tier == "quick" else 0.6,
+                             rule="TLC enumerates pattern-family shards x haystacks x every start offset and evaluates, per offset, the "
+                                  "leftmost-first and leftmost-longest match, the match anchored at the offset and the set of all match ends; "
+                                  "each engine entry point (PikeVM x12, bounded backtracker, lazy DFA forward/anchored/earliest/reverse under 6 "
+                                  "cache configurations, one-pass DFA) is driven directly and compared; declined (constructor error, !CanHandle, "
+                                  "nil from the one-pass search) is accepted; non-trivial = reference has a match on a non-empty haystack")
+
+
 REGISTRY = {
+    "C14": c14,
     "C08": c08,
     "C01": c_search, "C02": c_search, "C03": c_search, "C04": c_search, "C10": c_search, "C11": c_search,
 }
